@@ -114,6 +114,15 @@ def realize(case, cube_kwargs=None):
     return L
 
 
+def mask_size_for(pid, i):
+    """Minimum base size the analysis is constructed with (hash stratum of the unit): a
+    construction-time parameter that only the minimum-base mask may depend on - no statistic
+    is blanked, rounded or skipped because of it."""
+    from .gen import stratum
+
+    return [0, 0, 0, 4, 15, 60][stratum(pid, i, "mask_size", 6)]
+
+
 def describe(case, extra=None):
     """Short descriptor of a case for the evidence samples."""
     spec = case["spec"]
